@@ -423,7 +423,7 @@ impl Lifecycle {
             self.nr_msgs += 1;
 
             // sw-version contained?
-            if self.sw_version.is_none() && msg.is_ctrl_response() {
+            if self.sw_version.is_none() && msg.is_ctrl_response() && !msg.is_verbose() {
                 let mut args = msg.into_iter();
                 let message_id_arg = args.next();
                 let message_id = match message_id_arg {
